@@ -49,7 +49,7 @@ pub unsafe extern "C" fn bcmp(a: *const u8, b: *const u8, n: usize) -> i32 {
     0
 }
 
-const RULE: &str = "generated: (request, key) pairs from the completeness generator (small requests, both carriers); for each, the expected signature (reference model) with ONE character at position p replaced by another of the same class (digit->digit, letter->letter), 'everything from p on wrong' variants, a different replacement character at p, and two-character variants that keep every order-independent digest of the string unchanged (successor at p / predecessor at another place: same byte sum; two unequal characters of one class exchanged: same multiset). Observed: the instruction-address trace (rolling hash + step count) of the complete sigv4_validate_request call in a forked child single-stepped with ptrace, under a harness-supplied byte-wise early-exit memcmp/bcmp. The traced refusal is the N-th refusal of its process for a round N per request (10000, 1000, 4096, 100, ...; the preceding ones run untraced in the same process). Every second request is validated with a TRACE-level logger that renders every record, so the formatting code behind the library's trace!/debug! calls is part of the trace. Oracle (metamorphic): for a fixed request and key the trace is identical for every p; the first variant is traced twice and a difference there makes the run inconclusive, never a violation. Non-trivial: a variant that the crate refuses with the signature-mismatch error (it reached the comparison) and whose trace was recorded; distinct by (request digest, position, kind of variant).";
+const RULE: &str = "generated: (request, key) pairs from the completeness generator (small requests, both carriers; every second one drawn until its correct signature has a given shape: leading '00', leading '000', trailing '00', leading 'ff'/'0'); for each, the expected signature (reference model) with ONE character at position p replaced by another of the same class (digit->digit, letter->letter), 'everything from p on wrong' variants, a different replacement character at p, and two-character variants that keep every order-independent digest of the string unchanged (successor at p / predecessor at another place: same byte sum; two unequal characters of one class exchanged: same multiset). Observed: the instruction-address trace (rolling hash + step count) of the complete sigv4_validate_request call in a forked child single-stepped with ptrace, under a harness-supplied byte-wise early-exit memcmp/bcmp. The traced refusal is the N-th refusal of its process for a round N per request (10000, 1000, 4096, 100, ...; the preceding ones run untraced in the same process). Every second request is validated with a TRACE-level logger that renders every record, so the formatting code behind the library's trace!/debug! calls is part of the trace. Oracle (metamorphic): for a fixed request and key the trace is identical for every p; the first variant is traced twice and a difference there makes the run inconclusive, never a violation. Non-trivial: a variant that the crate refuses with the signature-mismatch error (it reached the comparison) and whose trace was recorded; distinct by (request digest, position, kind of variant).";
 
 #[derive(Clone, Copy, Default)]
 struct TraceResult {
@@ -245,7 +245,7 @@ fn targets(seed: u64, n: usize) -> Vec<(Plan, Target)> {
     let st = plan(quiet_opts());
     let mut out: Vec<(Plan, Target)> = Vec::new();
     let mut guard = 0;
-    while out.len() < n && guard < 10_000 {
+    while out.len() < n && guard < 400_000 {
         guard += 1;
         let p = st.new_tree(&mut runner).unwrap().current();
         // alternate carriers
@@ -256,6 +256,19 @@ fn targets(seed: u64, n: usize) -> Vec<(Plan, Target)> {
         let Ok(b) = p.build() else { continue };
         let a = analyze(&b.case);
         if !a.verdict().is_accept() {
+            continue;
+        }
+        // some requests are chosen for the SHAPE of their correct signature (a property of request and key, not of the
+        // guess): leading / trailing zero bytes, where anything that trims, parses or re-encodes the value behaves differently
+        let sig = b.signed.signature.as_str();
+        let shape_ok = match out.len() % 8 {
+            1 => sig.starts_with("00"),
+            3 => sig.starts_with("000") || sig.starts_with("0000"),
+            5 => sig.ends_with("00"),
+            7 => sig.starts_with("ff") || sig.starts_with("0"),
+            _ => true,
+        };
+        if !shape_ok {
             continue;
         }
         // the crate must accept the correct signature, otherwise wrong ones do not reach the comparison meaningfully
@@ -321,7 +334,7 @@ fn main() {
         (vec![(p, Target { case: b.case.clone(), sig: b.signed.signature.clone(), logged, warm: 0 })], (0..64).collect(), vec![0, 32], (0..64).step_by(4).collect())
     } else {
         let n = tier.pick(2, 8) as usize;
-        let pos: Vec<usize> = if tier == Tier::Thorough { (0..64).collect() } else { (0..64).step_by(4).chain(std::iter::once(63)).collect() };
+        let pos: Vec<usize> = if tier == Tier::Thorough { (0..64).collect() } else { (0..64).step_by(4).chain([1usize, 2, 3, 62, 63]).collect() };
         let tails: Vec<usize> = if tier == Tier::Thorough { vec![0, 1, 16, 32, 48, 62] } else { vec![0, 32] };
         let pairs: Vec<usize> = if tier == Tier::Thorough { (0..64).step_by(4).collect() } else { vec![0, 13, 31, 47, 62] };
         (targets(seed, n), pos, tails, pairs)
